@@ -514,6 +514,11 @@ func Lock(m locker, site string) {
 		m.Lock()
 		return
 	}
+	if dbg := os.Getenv("VERIF_DEBUG_SITE"); dbg != "" && dbg == site {
+		buf := make([]byte, 1<<13)
+		buf = buf[:runtime.Stack(buf, false)]
+		fmt.Fprintf(os.Stderr, "SITE %s step=%d\n%s\n", site, Steps(), buf)
+	}
 	Yield("lock@" + site)
 	for !m.TryLock() {
 		RaceOff()
